@@ -6,6 +6,21 @@ export GOFLAGS=-mod=mod GOPROXY=off GOSUMDB=off GOTOOLCHAIN=local VERIF_ROOT="$(
 id="$1"; tier="${2:-quick}"; shift; [ $# -gt 0 ] && shift
 mkdir -p bin
 tools/mkoverlay.sh "bin/overlay-$id.json"
+# E3: checks that own map iteration order / scheduling get rewritten copies of
+# the product packages (from /repo's current tree) added to the overlay.
+maprange=""; syncpk=""
+case "$id" in
+  C07) maprange="compile" ;;
+esac
+if [ -n "$maprange$syncpk" ]; then
+  [ -x bin/overlaygen ] || go build -o bin/overlaygen ./tools/overlaygen || exit 2
+  rm -rf "bin/ov-$id"
+  if ! bin/overlaygen -maprange "$maprange" -sync "$syncpk" -dir "$(pwd)/bin/ov-$id" -base "bin/overlay-$id.json" -out "bin/overlay-$id.json" > "bin/overlaygen-$id.json" 2> "bin/build-$id.log"; then
+    echo "HARNESS-ERROR check=$id overlay generation failed (unowned nondeterminism or /repo does not type-check):" >&2
+    cat "bin/overlaygen-$id.json" "bin/build-$id.log" >&2
+    exit 2
+  fi
+fi
 if ! go build -tags verif -overlay "bin/overlay-$id.json" -o "bin/vcheck-$id" ./cmd/vcheck 2> "bin/build-$id.log"; then
   # a tree that does not build is not a property verdict
   echo "HARNESS-ERROR check=$id harness does not build against /repo:" >&2
